@@ -144,6 +144,8 @@ impl Stack {
             Some(slot) => {
                 *slot = vcell.into();
                 self.sp += 1;
+                #[cfg(marwood_verif)]
+                crate::vm::verif::note_sp(self.sp);
             }
             None => {
                 self.grow();
@@ -204,6 +206,14 @@ impl Stack {
 impl Default for Stack {
     fn default() -> Self {
         Self::new()
+    }
+}
+
+/// Verification hook (see vm/verif.rs)
+#[cfg(marwood_verif)]
+impl Stack {
+    pub(crate) fn verif_all(&self) -> &[VCell] {
+        &self.stack
     }
 }
 
